@@ -232,6 +232,7 @@ package vuego
 
 //@ func (v *Vue) RenderFragment(w, filename, data) (err)
 //@   assert C09+C10.root.private: fresh($arg0) at "call NewStackWithData"
+//@   assert C16.ids.by.file.fragment: $arg0 == filename at "call assignOnceIDs"
 //@   ensures C12.nothing: err != nil && !failed(w) ==> out(w) == old(out(w))
 //@   ensures C12.reported: failed(w) && !old(failed(w)) ==> err != nil
 //@   ensures C12.complete: err == nil ==> failed(w) == old(failed(w))
@@ -243,6 +244,7 @@ package vuego
 //@   ensures C12.complete: err == nil ==> failed(w) == old(failed(w))
 
 //@ func (t *template) renderWithoutLayout(ctx, w) (err)
+//@   assert C08.frontmatter.at.render: $arg1 == t.filename at "call Render"
 //@   ensures C12.nothing: err != nil && !failed(w) ==> out(w) == old(out(w))
 //@   ensures C12.reported: failed(w) && !old(failed(w)) ==> err != nil
 //@   ensures C12.complete: err == nil ==> failed(w) == old(failed(w))
@@ -672,6 +674,8 @@ package vuego
 //@ func (v *Vue) evaluateNodeAsElement(ctx, node, depth) (res, err)
 //@   assert C01.eval.once: $arg1 == newNode at "call evalAttributes"
 //@   assert C04+C06.slot.filled: node.Data != "slot" at "call evalAttributes"
+//@   assert C05.chain.include.scope.untouched: forall k string :: (k in ctx.stack.stack[len(ctx.stack.stack) - 1]) == old(k in ctx.stack.stack[len(ctx.stack.stack) - 1]) at "call evalTemplate"
+//@   assert C03+C06+C10.chain.source.untouched: $arg0 != node at "call RemoveAttr"
 //@   assert C03+C10.chain.loop.private: $arg1 == node || (fresh($arg1) && $arg1 != nil && (len($arg1.Attr) == 0 || fresh($arg1.Attr))) at "call evalFor"
 //@   assert C16.marked.chain.member: hasAttrUpTo(node.Attr, "v-once", len(node.Attr)) ==> ctx.seen[getAttrFrom(node.Attr, "v-once-id", 0)] at "helpers.GetAttr(node, \"v-html\")"
 //@   assert C16.marked.chain.slot: hasAttrUpTo(node.Attr, "v-once", len(node.Attr)) ==> ctx.seen[getAttrFrom(node.Attr, "v-once-id", 0)] at "call evalSlot"
